@@ -432,7 +432,7 @@ func isStartTLSConn(conn net.Conn) bool {
 //@   props C04:post,pre@call
 //@   post-all
 //@   ensures __ghost("tagged") == old(__ghost("tagged"))
-//@   exclude serve readCommand handleStartTLS handleAuthenticate handleLogin handleSelect handleAppend handleCopy handleSearch writeStatusResp writeCapabilityStatus writeAppendOK writeCopyOK writeESearch Bye
+//@   exclude serve readCommand handleStartTLS handleAuthenticate handleLogin handleSelect handleAppend handleCopy handleSearch writeStatusResp writeCapabilityStatus writeAppendOK writeCopyOK writeESearch Bye readLine
 
 //@ func (c *Conn) writeStatusResp(tag string, statusResp *imap.StatusResponse) (err error)
 //@   props C04:post,pre@call
@@ -450,6 +450,17 @@ func isStartTLSConn(conn net.Conn) bool {
 //@   props C04:post,pre@call
 //@   ensures __ghost("tagged") == old(__ghost("tagged"))
 //@   ensures c.state == old(c.state)
+
+// Lines outside a command (DONE, SASL responses) are read with readLine, which
+// returns only after the whole line was consumed (the last ReadLine did not
+// report a partial line), so that an over-long line's remainder is never
+// parsed as a command; handlers do not call ReadLine themselves.
+//
+//@ func (c *Conn) readLine() (line []byte, tooLong bool, err error)
+//@   props C04:post,inv-init,inv-step
+//@   ensures err == nil ==> !__resultBool("Reader.ReadLine", 1)
+//@   loop 0 vars (tooLong bool, isPrefix bool, err error)
+//@   loop 0 invariant __resultBool("Reader.ReadLine", 1) == isPrefix
 
 // APPEND: once the literal has been accepted, the handler never returns
 // without draining it (whatever the back end answered), and after the back end
@@ -514,6 +525,7 @@ func tagHandlerFailed() bool {
 //@ func (c *Conn) handleIdle(dec *imapwire.Decoder) (err error)
 //@   props C04:post,pre@call,callsite
 //@   callsite Conn.writeContReq requires authed(c)
+//@   callsite Reader.ReadLine requires false
 //@   ensures c.state == old(c.state) && __ghost("tagged") == old(__ghost("tagged"))
 
 // ---------------------------------------------------------------------------
